@@ -161,6 +161,30 @@ pub fn campaign(
         }
         one(rep, &Mode::Plan(p));
     }
+    // tiny programs: ALL plans that stall one thread twice at neighbouring hook positions (the shape of a
+    // "claim, then publish" window raced by a "scan, then commit" sequence of the other thread)
+    let total: u64 = st.counts.iter().sum();
+    if total <= 48 && b.n_d2 > 0 {
+        rep.count("depth2_same_thread_exhaustive_programs", 1);
+        'outer: for (t, c) in st.counts.iter().enumerate() {
+            for k in 1..=*c {
+                for d in 1..=2u64 {
+                    if k + d > *c {
+                        continue;
+                    }
+                    for m1 in [1u64, 2, 3, 4, 5, 6, 8] {
+                        for m2 in [1u64, 2, 3, u64::MAX] {
+                            if b.expired() {
+                                rep.count("programs_cut_by_deadline", 1);
+                                break 'outer;
+                            }
+                            one(rep, &Mode::Plan(vec![Stall { thread: t, k, m: m1 }, Stall { thread: t, k: k + d, m: m2 }]));
+                        }
+                    }
+                }
+            }
+        }
+    }
     let n = st.counts.len();
     for _ in 0..b.n_d2 {
         if b.expired() {
